@@ -34,7 +34,7 @@ for i in range(1, 17):
     if extra.exists():
         out.append("\n" + demote(extra.read_text().strip()) + "\n")
 
-for extra_name in ["CERT", "C01G", "TIE"] + sorted(p.stem for p in D.glob("TIE_*.md")):
+for extra_name in ["CERT", "CERT_kinds", "C01G", "TIE"] + sorted(p.stem for p in D.glob("TIE_*.md")):
     f = D / f"{extra_name}.md"
     if f.exists():
         out.append("\n" + demote(f.read_text().strip()) + "\n")
